@@ -569,6 +569,12 @@ def py_instance(name, td_row):
 
 
 # --------------------------------------------------------------------------- episode cases
+# envs that take every size from the instance (probed on the pinned tree: identical episodes and rewards whether the env
+# object was configured for the instance's size or another one) -> keys of the config that may differ for the env object
+ENV_SHAPE_FREE = {"tsp": ("n",), "cvrp": ("n",), "sdvrp": ("n",), "cvrptw": ("n",), "svrp": ("n",), "op": ("n",),
+                  "mtvrp": ("n",), "flp": ("n",), "fjsp": ("jobs", "mas"), "mcp": ("sets", "items")}
+
+
 def row_strategy(maxlen=24):
     return st.fixed_dictionaries({
         "mode": st.sampled_from(MODES + ["stream", "stream"]),
@@ -593,6 +599,24 @@ def episode_cases(draw, tier, names, max_b=None, sources=None):
     elif src == "tgt":
         case["lat"] = draw(spec.tight(cfg, B))
     case["rows"] = [draw(row_strategy()) for _ in range(B)]
+    # environment object configured for ANOTHER size than the instances it is given (generalisation runs: a model / env
+    # built for n nodes evaluated on other sizes).  Only for environments whose reset takes every size from the data
+    # on the pinned tree (TSP's reset says so: "We do not enforce loading from self for flexibility"; FJSP re-reads the
+    # shape in set_instance_params); the instance itself still comes from a generator / lattice of its own size.
+    if name in ENV_SHAPE_FREE and draw(st.integers(0, 5)) == 0:
+        ov = {}
+        for k_ in ENV_SHAPE_FREE[name]:
+            lo, hi = (1, 4) if k_ in ("jobs", "mas") else ((2, 9) if k_ == "sets" else ((3, 16) if k_ == "items" else (2, 12)))
+            ov[k_] = draw(st.integers(lo, hi))
+        if any(ov[k_] != cfg[k_] for k_ in ov):
+            if name == "fjsp":
+                ov["max_elig"] = min(cfg["max_elig"], ov["mas"])
+            if name == "flp":
+                ov["k"] = min(cfg["k"], ov["n"])
+            if name == "mcp":
+                ov["items"] = max(ov["items"], cfg["max_size"])
+                ov["k"] = min(cfg["k"], ov["sets"])
+            case["env_shape"] = ov
     # stepping mode of the driver (vf.play): the default loop of every policy, or TorchRL mode with / without look-ahead
     case["stepping"] = draw(st.sampled_from(["default", "default", "default", "default", "torchrl", "torchrl_probe"]))
     return case
